@@ -710,6 +710,8 @@ func (e *Engine) rangeStmt(s *ast.RangeStmt, in []*State) []*State {
 	}
 	e.quiet--
 	cur := compact(head.list)
+	// the loop is left from its head (as a for loop is): what a client resets there is reset on the way out, too
+	cur = e.hookEach(cur, func(st *State) *State { return e.Client.LoopHead(e, st, s) })
 	// leaving the loop without having gone round is only possible when the operand can be empty
 	var exitStates []*State
 	for _, st := range cur {
@@ -719,7 +721,6 @@ func (e *Engine) rangeStmt(s *ast.RangeStmt, in []*State) []*State {
 		exitStates = append(exitStates, st)
 	}
 	exit := compact(setMark(exitStates, ""))
-	cur = e.hookEach(cur, func(st *State) *State { return e.Client.LoopHead(e, st, s) })
 	cur = e.hookEach(cur, bind)
 	e.pushTarget(s, true)
 	out := e.block(s.Body, cur)
